@@ -1,0 +1,111 @@
+// Add-only export shim (build tag verif): a wrapper around the unexported
+// bitReader and prefixDecoder of this package, so that the verification
+// harness can drive them operation by operation and observe every field.
+// Nothing here is compiled in a normal build.
+
+//go:build verif
+// +build verif
+
+package brotli
+
+import "io"
+
+// VerifBitReader wraps a bitReader.
+type VerifBitReader struct{ br bitReader }
+
+// Init is bitReader.Init.
+func (v *VerifBitReader) Init(r io.Reader) { v.br.Init(r) }
+
+// IsBuffered reports whether the Peek/Discard path is in use (bufRd != nil).
+func (v *VerifBitReader) IsBuffered() bool { return v.br.bufRd != nil }
+
+// Buffered is bufRd.Buffered() (0 on the ReadByte path).
+func (v *VerifBitReader) Buffered() int {
+	if v.br.bufRd == nil {
+		return 0
+	}
+	return v.br.bufRd.Buffered()
+}
+
+// BufSize is bufRd.Size() (0 on the ReadByte path).
+func (v *VerifBitReader) BufSize() int {
+	if v.br.bufRd == nil {
+		return 0
+	}
+	return v.br.bufRd.Size()
+}
+
+// State returns the raw fields bufBits, numBits, offset, len(bufPeek),
+// discardBits, fedBits.
+func (v *VerifBitReader) State() (bufBits uint64, numBits uint, offset int64, peekLen int, discardBits int, fedBits uint) {
+	br := &v.br
+	return br.bufBits, br.numBits, br.offset, len(br.bufPeek), br.discardBits, br.fedBits
+}
+
+// BitsRead is the number of bits handed out so far, computed from the fields
+// exactly as internal/prefix.Reader.BitsRead does.
+func (v *VerifBitReader) BitsRead() int64 {
+	br := &v.br
+	if br.bufRd != nil {
+		return 8*br.offset + int64(br.discardBits+int(br.fedBits-br.numBits))
+	}
+	return 8*br.offset - int64(br.numBits)
+}
+
+func (v *VerifBitReader) FlushOffset() int64               { return v.br.FlushOffset() }
+func (v *VerifBitReader) FeedBits(nb uint)                 { v.br.FeedBits(nb) }
+func (v *VerifBitReader) Read(buf []byte) (int, error)     { return v.br.Read(buf) }
+func (v *VerifBitReader) TryReadBits(nb uint) (uint, bool) { return v.br.TryReadBits(nb) }
+func (v *VerifBitReader) ReadBits(nb uint) uint            { return v.br.ReadBits(nb) }
+func (v *VerifBitReader) ReadPads() uint                   { return v.br.ReadPads() }
+
+// ReadSymbol / TryReadSymbol with the tables of pd.
+func (v *VerifBitReader) ReadSymbol(pd *VerifPrefixDecoder) uint { return v.br.ReadSymbol(&pd.pd) }
+func (v *VerifBitReader) TryReadSymbol(pd *VerifPrefixDecoder) (uint, bool) {
+	return v.br.TryReadSymbol(&pd.pd)
+}
+
+// ReadPrefixCode is bitReader.ReadPrefixCode (RFC 7932 sections 3.4 / 3.5).
+func (v *VerifBitReader) ReadPrefixCode(pd *VerifPrefixDecoder, maxSyms uint) {
+	v.br.ReadPrefixCode(&pd.pd, maxSyms)
+}
+
+// VerifPrefixDecoder wraps a prefixDecoder.
+type VerifPrefixDecoder struct{ pd prefixDecoder }
+
+// SetStorage plants recycled storage: chunks and links become zero-length
+// slices over copies of the given arrays (capacity = length exactly), so that
+// the next Init finds stale contents with the given capacities.
+func (v *VerifPrefixDecoder) SetStorage(chunks []uint32, links [][]uint32) {
+	v.pd = prefixDecoder{}
+	if chunks != nil {
+		c := make([]uint32, len(chunks))
+		copy(c, chunks)
+		v.pd.chunks = c[:0]
+	}
+	if links != nil {
+		ls := make([][]uint32, len(links))
+		for i, l := range links {
+			if l != nil {
+				c := make([]uint32, len(l))
+				copy(c, l)
+				ls[i] = c[:0]
+			}
+		}
+		v.pd.links = ls[:0]
+	}
+}
+
+// Init is prefixDecoder.Init; the codes are copied in and the (possibly
+// assigned) codes are returned.
+func (v *VerifPrefixDecoder) Init(codes []VerifPrefixCode, assignCodes bool) []VerifPrefixCode {
+	cs := make([]prefixCode, len(codes))
+	for i, c := range codes {
+		cs[i] = prefixCode{sym: c.Sym, val: c.Val, len: c.Len}
+	}
+	v.pd.Init(cs, assignCodes)
+	return verifCodes(cs)
+}
+
+// Dump returns a copy of the tables.
+func (v *VerifPrefixDecoder) Dump() VerifDecoder { return verifDecoder(&v.pd) }
